@@ -357,6 +357,10 @@ func limitsFor(n int, explicit []int, rnd *rand.Rand) []int {
 		return ls
 	}
 	set := map[int]bool{1: true, n / 2: true, 1024: true}
+	if n > 20000 {
+		// very long texts (deep family): thousands of one-value chunks make the trace expensive without adding anything
+		set = map[int]bool{n / 2: true, 1024: true, 97: true}
+	}
 	if n <= 3000 {
 		for _, l := range []int{2, 7, n - 1, n, n + 1} {
 			set[l] = true
@@ -424,7 +428,11 @@ func runCase(c wcase, idx int) []byte {
 		outs = append(outs, streamed("oj", "oj.Write", l, func(w *recorder) error { return oj.Write(w, simple, c.O.ojg(l)) }))
 	}
 	// the gen form through the streaming writer at a few limits
-	for _, l := range []int{1, n/2 + 1} {
+	genLimits := []int{1, n/2 + 1}
+	if n > 20000 {
+		genLimits = []int{n/2 + 1}
+	}
+	for _, l := range genLimits {
 		l := l
 		outs = append(outs, streamed("oj", "oj.Write/gen", l, func(w *recorder) error { return oj.Write(w, gv, c.O.ojg(l)) }))
 	}
@@ -443,6 +451,9 @@ func runCase(c wcase, idx int) []byte {
 		pl := c.L
 		if len(pl) == 0 {
 			pl = []int{1, 3, pn/2 + 1, pn, pn + 1}
+			if pn > 20000 {
+				pl = []int{pn/2 + 1, 1024}
+			}
 			if pn <= 24 {
 				pl = limitsFor(pn, nil, rnd)
 			}
@@ -746,6 +757,10 @@ func genCases(args []string) {
 			ok |= 8
 		}
 		emit(tc.tree, optsOf(ok), tc.p, "hetero")
+	}
+	// (0c) deep chains with siblings
+	for _, dc := range deepCases(quick) {
+		emit(dc.tree, dc.o, dc.p, "deep")
 	}
 	// (1) TLC shapes x leaves x options: every shape meets every option bit in both polarities over the run
 	var shapes []shape
@@ -1131,5 +1146,91 @@ func heteroCases(path string, quick bool) []tableCase {
 			}
 		}
 	})
+	return res
+}
+
+// ---------------------------------------------------------------- deep family (C04 and C10)
+// Chains of arrays / objects / mixed whose innermost AND some intermediate containers have two or more members, deep enough
+// to leave the 128/256-byte indentation tables of oj, sen and pretty (depth x indent crossing 128 and 256) and pretty's
+// "deeper than the table: fall back to flat" branch (depth >= 128).
+func deepTree(depth, pattern int) M {
+	var t M
+	if pattern == 1 {
+		t = aObj("a", aInt(1), "b", aStr("x"), "c", aInt(22))
+	} else {
+		t = aArr(aInt(1), aStr("x"), aInt(22))
+	}
+	for k := depth - 2; k >= 0; k-- {
+		isObj := pattern == 1 || (pattern == 2 && k%2 == 1)
+		switch {
+		case isObj && k%3 == 0:
+			t = aObj("a", aInt(int64(k)), "k", t, "z", aStr("s"))
+		case isObj && k%3 == 2:
+			t = aObj("k", t, "z", aStr("yy"))
+		case isObj:
+			t = aObj("k", t)
+		case k%3 == 0:
+			t = aArr(aInt(int64(k)), t, aStr("s"))
+		case k%3 == 2:
+			t = aArr(t, aStr("yy"))
+		default:
+			t = aArr(t)
+		}
+	}
+	return t
+}
+
+type deepCase struct {
+	tree M
+	o    opts
+	p    []pcfg
+}
+
+func deepCases(quick bool) []deepCase {
+	var res []deepCase
+	sd := int(seed())
+	pcs := [][]pcfg{{{W: 80, D: 3, Al: false}, {W: 200, D: 9, Al: true}}, {{W: 20, D: 2, Al: false}, {W: 1, D: 1, Al: true}},
+		{{W: 200, D: 3, Al: true}, {W: 80, D: 9, Al: false}}}
+	n := 0
+	add := func(depth, pattern int, o opts) {
+		n++
+		res = append(res, deepCase{deepTree(depth, pattern), o, pcs[(n+sd)%3]})
+	}
+	for di, d := range []int{60, 127, 128, 129, 200, 300} {
+		for pat := 0; pat < 3; pat++ {
+			if quick && pat != (di+sd)%3 {
+				continue
+			}
+			add(d, pat, opts{HTMLUnsafe: true})
+			add(d, pat, opts{Sort: true})
+		}
+	}
+	// depth x indent crossing the 128- and the 256-byte tables
+	for ind := 1; ind <= 8; ind++ {
+		for _, size := range []int{128, 256} {
+			base := size/ind + 1
+			if base > 300 || (size == 256 && ind == 1 && quick) {
+				continue
+			}
+			ds := []int{base}
+			if !quick {
+				ds = []int{base - 1, base, base + 1, base + 3}
+			}
+			for _, d := range ds {
+				if d > 300 {
+					continue
+				}
+				pats := []int{(ind + d + sd) % 3}
+				if !quick {
+					pats = []int{0, 1, 2}
+				}
+				for _, pat := range pats {
+					add(d, pat, opts{Indent: ind, Sort: pat != 0 || ind%2 == 0})
+				}
+			}
+		}
+	}
+	add(33, 2, opts{Tab: true, Sort: true})
+	add(129, 0, opts{Tab: true})
 	return res
 }
